@@ -13,7 +13,6 @@
 import TfelVerif.Common.M3
 import TfelVerif.Common.Model
 import TfelVerif.C02.Lemmas
-import TfelVerif.C02.GenT
 import TfelVerif.C02.GenN1
 
 namespace TfelVerif.C02.Props
@@ -29,27 +28,27 @@ variable {K : Type} [Field K] (c c3 : K) (fn : Fns K)
 theorem N1_st_apply (hc : c * c = 2) (h2 : (2:K) ≠ 0) (a : Fin 6 → Fin 6 → K) (s : Fin 6 → K) :
     pad1_6 (gen% (Gen.N1_st_apply_all c c3 fn) | a 3 3 | s 3)
       = T2.st c (T4.app (T4.ofST c (rm mS1 mS1 a)) (T2.ofSt c (rv mS1 s))) := by
-  t4_eq hc
+  rw [st_app_ST hc h2]; t4_eq hc
 /-- `s * C` is `(s : C)_kl = s_ij C_ijkl` -/
 theorem N1_st_applyL (hc : c * c = 2) (h2 : (2:K) ≠ 0) (s : Fin 6 → K) (a : Fin 6 → Fin 6 → K) :
     pad1_6 (gen% (Gen.N1_st_applyL_all c c3 fn) | s 3 | a 3 3)
       = T2.st c (T4.appL (T2.ofSt c (rv mS1 s)) (T4.ofST c (rm mS1 mS1 a))) := by
-  t4_eq hc
+  rw [st_appL_ST hc h2]; t4_eq hc
 /-- `C * D` (expression template product) is `C_ijmn D_mnkl` -/
 theorem N1_st_comp (hc : c * c = 2) (h2 : (2:K) ≠ 0) (a : Fin 6 → Fin 6 → K) (b : Fin 6 → Fin 6 → K) :
     pad1_66 (gen% (Gen.N1_st_comp_all c c3 fn) | a 3 3 | b 3 3)
       = rows66 (T4.stoST c (T4.comp (T4.ofST c (rm mS1 mS1 a)) (T4.ofST c (rm mS1 mS1 b)))) := by
-  t4_eq hc
+  rw [stoST_comp_ST_ST hc h2]; t4_eq hc
 /-- `transpose(C)_ijkl = C_klij` -/
 theorem N1_st_transpose (hc : c * c = 2) (h2 : (2:K) ≠ 0) (a : Fin 6 → Fin 6 → K) :
     pad1_66 (gen% (Gen.N1_st_transpose_all c c3 fn) | a 3 3)
       = rows66 (T4.stoST c (T4.transpose (T4.ofST c (rm mS1 mS1 a)))) := by
-  t4_eq hc
+  rw [stoST_transpose hc h2]; t4_eq hc
 /-- `s ^ t` is `s_ij t_kl` -/
 theorem N1_st_dyad (hc : c * c = 2) (h2 : (2:K) ≠ 0) (s : Fin 6 → K) (t : Fin 6 → K) :
     pad1_66 (gen% (Gen.N1_st_dyad_all c c3 fn) | s 3 | t 3)
       = rows66 (T4.stoST c (T2.dyad (T2.ofSt c (rv mS1 s)) (T2.ofSt c (rv mS1 t)))) := by
-  t4_eq hc
+  rw [stoST_dyad hc h2]; t4_eq hc
 /-- `k*C + D - C/k` through expression templates -/
 theorem N1_st_add_scale (hc : c * c = 2) (h2 : (2:K) ≠ 0) (a : Fin 6 → Fin 6 → K) (b : Fin 6 → Fin 6 → K) (k : K) (hk : k ≠ 0) :
     pad1_66 (gen% (Gen.N1_st_add_scale_all c c3 fn) | a 3 3 | b 3 3 | k)
@@ -84,20 +83,6 @@ theorem N1_st_fromRotationMatrix (hc : c * c = 2) (h2 : (2:K) ≠ 0) (r : Fin 3 
     pad1_66 (gen% (Gen.N1_st_fromRotationMatrix_all c c3 fn) | r 3 3)
       = rows66 (rm mS1 mS1 (T4.stoST c T4.idS)) := by
   t4_eq hc
-theorem N1_st_change_basis (hc : c * c = 2) (h2 : (2:K) ≠ 0) (a : Fin 6 → Fin 6 → K) (r : Fin 3 → Fin 3 → K) :
-    pad1_66 (gen% (Gen.N1_st_change_basis_all c c3 fn) | a 3 3 | r 3 3)
-      = rows66 (T4.stoST c (T4.ofST c (rm mS1 mS1 a))) := by
-  t4_eq hc
-/-- `push_forward(C,F)_ijkl = F_im F_jn F_kp F_lq C_mnpq` -/
-theorem N1_st_push_forward (hc : c * c = 2) (h2 : (2:K) ≠ 0) (a : Fin 6 → Fin 6 → K) (f : Fin 9 → K) :
-    pad1_66 (gen% (Gen.N1_st_push_forward_all c c3 fn) | a 3 3 | f 3)
-      = rows66 (T4.stoST c (T4.pushForward (T2.ofTens (rv mT1 f)) (T4.ofST c (rm mS1 mS1 a)))) := by
-  t4_eq hc
-/-- `pull_back(C,F) = push_forward(C, invert(F))` (same operations; meaning: `N1_st_push_forward`, `N1_t_invert`) -/
-theorem N1_st_pull_back  (a : Fin 6 → Fin 6 → K) (f : Fin 9 → K) :
-    (gen% (Gen.N1_st_pull_back_all c c3 fn) | a 3 3 | f 3)
-      = gen% (Gen.N1_st_push_forward_all c c3 fn) | a 3 3 | (vecOf (n := 9) (gen% (Gen.N1_t_invert_all c c3 fn) | f 3)) 3 := by
-  t4_same
 /-- `getComponent(C,i,j,k,l)` is `C_ijkl` for the fourth-order tensor `T4.ofST` reads from the storage -/
 theorem N1_st_getComponent (hc : c * c = 2) (h2 : (2:K) ≠ 0) (a : Fin 6 → Fin 6 → K) :
     gen% (Gen.N1_st_getComponent_all c c3 fn) | a 3 3
@@ -112,25 +97,25 @@ theorem N1_st_convert_from_t2tost2 (hc : c * c = 2) (h2 : (2:K) ≠ 0) (a : Fin 
 theorem N1_st_comp_ts_s2t (hc : c * c = 2) (h2 : (2:K) ≠ 0) (a : Fin 6 → Fin 9 → K) (b : Fin 9 → Fin 6 → K) :
     pad1_66 (gen% (Gen.N1_st_comp_ts_s2t_all c c3 fn) | a 3 3 | b 3 3)
       = rows66 (T4.stoST c (T4.comp (T4.ofTS c (rm mS1 mT1 a)) (T4.ofS2T c (rm mT1 mS1 b)))) := by
-  t4_eq hc
+  rw [stoST_comp_TS_S2T hc h2]; t4_eq hc
 
 /-! ## t2tot2<1> -/
 theorem N1_tt_apply (hc : c * c = 2) (h2 : (2:K) ≠ 0) (a : Fin 9 → Fin 9 → K) (x : Fin 9 → K) :
     pad1_9 (gen% (Gen.N1_tt_apply_all c c3 fn) | a 3 3 | x 3)
       = T2.tens (T4.app (T4.ofTT (rm mT1 mT1 a)) (T2.ofTens (rv mT1 x))) := by
-  t4_eq hc
+  rw [tens_app_TT hc h2]; t4_eq hc
 theorem N1_tt_applyL (hc : c * c = 2) (h2 : (2:K) ≠ 0) (x : Fin 9 → K) (a : Fin 9 → Fin 9 → K) :
     pad1_9 (gen% (Gen.N1_tt_applyL_all c c3 fn) | x 3 | a 3 3)
       = T2.tens (T4.appL (T2.ofTens (rv mT1 x)) (T4.ofTT (rm mT1 mT1 a))) := by
-  t4_eq hc
+  rw [tens_appL_TT hc h2]; t4_eq hc
 theorem N1_tt_comp (hc : c * c = 2) (h2 : (2:K) ≠ 0) (a : Fin 9 → Fin 9 → K) (b : Fin 9 → Fin 9 → K) :
     pad1_99 (gen% (Gen.N1_tt_comp_all c c3 fn) | a 3 3 | b 3 3)
       = rows99 (T4.stoTT (T4.comp (T4.ofTT (rm mT1 mT1 a)) (T4.ofTT (rm mT1 mT1 b)))) := by
-  t4_eq hc
+  rw [stoTT_comp_TT_TT hc h2]; t4_eq hc
 theorem N1_tt_dyad (hc : c * c = 2) (h2 : (2:K) ≠ 0) (x : Fin 9 → K) (y : Fin 9 → K) :
     pad1_99 (gen% (Gen.N1_tt_dyad_all c c3 fn) | x 3 | y 3)
       = rows99 (T4.stoTT (T2.dyad (T2.ofTens (rv mT1 x)) (T2.ofTens (rv mT1 y)))) := by
-  t4_eq hc
+  rw [stoTT_dyad hc h2]; t4_eq hc
 theorem N1_tt_Id (hc : c * c = 2) (h2 : (2:K) ≠ 0)  :
     pad1_99 (gen% (Gen.N1_tt_Id_all c c3 fn))
       = rows99 (rm mT1 mT1 (T4.stoTT T4.id)) := by
@@ -150,10 +135,6 @@ theorem N1_tt_transpose_derivative (hc : c * c = 2) (h2 : (2:K) ≠ 0)  :
 theorem N1_tt_fromRotationMatrix (hc : c * c = 2) (h2 : (2:K) ≠ 0) (r : Fin 3 → Fin 3 → K) :
     pad1_99 (gen% (Gen.N1_tt_fromRotationMatrix_all c c3 fn) | r 3 3)
       = rows99 (rm mT1 mT1 (T4.stoTT T4.id)) := by
-  t4_eq hc
-theorem N1_tt_change_basis (hc : c * c = 2) (h2 : (2:K) ≠ 0) (a : Fin 9 → Fin 9 → K) (r : Fin 3 → Fin 3 → K) :
-    pad1_99 (gen% (Gen.N1_tt_change_basis_all c c3 fn) | a 3 3 | r 3 3)
-      = rows99 (T4.stoTT (T4.ofTT (rm mT1 mT1 a))) := by
   t4_eq hc
 /-- `tpld(B) = ∂(A·B)/∂A = δ_ik B_lj` (`Lemmas.app_tpld`: it maps `X` to `X·B`) -/
 theorem N1_tt_tpld (hc : c * c = 2) (h2 : (2:K) ≠ 0) (b : Fin 9 → K) :
@@ -182,33 +163,29 @@ theorem N1_tt_convert_from_t2tost2 (hc : c * c = 2) (h2 : (2:K) ≠ 0) (a : Fin 
 theorem N1_tt_comp_s2t_ts (hc : c * c = 2) (h2 : (2:K) ≠ 0) (a : Fin 9 → Fin 6 → K) (b : Fin 6 → Fin 9 → K) :
     pad1_99 (gen% (Gen.N1_tt_comp_s2t_ts_all c c3 fn) | a 3 3 | b 3 3)
       = rows99 (T4.stoTT (T4.comp (T4.ofS2T c (rm mT1 mS1 a)) (T4.ofTS c (rm mS1 mT1 b)))) := by
-  t4_eq hc
+  rw [stoTT_comp_S2T_TS hc h2]; t4_eq hc
 
 /-! ## t2tost2<1> -/
 theorem N1_ts_apply (hc : c * c = 2) (h2 : (2:K) ≠ 0) (a : Fin 6 → Fin 9 → K) (x : Fin 9 → K) :
     pad1_6 (gen% (Gen.N1_ts_apply_all c c3 fn) | a 3 3 | x 3)
       = T2.st c (T4.app (T4.ofTS c (rm mS1 mT1 a)) (T2.ofTens (rv mT1 x))) := by
-  t4_eq hc
+  rw [st_app_TS hc h2]; t4_eq hc
 theorem N1_ts_applyL (hc : c * c = 2) (h2 : (2:K) ≠ 0) (s : Fin 6 → K) (a : Fin 6 → Fin 9 → K) :
     pad1_9 (gen% (Gen.N1_ts_applyL_all c c3 fn) | s 3 | a 3 3)
       = T2.tens (T4.appL (T2.ofSt c (rv mS1 s)) (T4.ofTS c (rm mS1 mT1 a))) := by
-  t4_eq hc
+  rw [tens_appL_TS hc h2]; t4_eq hc
 theorem N1_ts_comp_st_ts (hc : c * c = 2) (h2 : (2:K) ≠ 0) (a : Fin 6 → Fin 6 → K) (b : Fin 6 → Fin 9 → K) :
     pad1_69 (gen% (Gen.N1_ts_comp_st_ts_all c c3 fn) | a 3 3 | b 3 3)
       = rows69 (T4.stoTS c (T4.comp (T4.ofST c (rm mS1 mS1 a)) (T4.ofTS c (rm mS1 mT1 b)))) := by
-  t4_eq hc
+  rw [stoTS_comp_ST_TS hc h2]; t4_eq hc
 theorem N1_ts_comp_ts_tt (hc : c * c = 2) (h2 : (2:K) ≠ 0) (a : Fin 6 → Fin 9 → K) (b : Fin 9 → Fin 9 → K) :
     pad1_69 (gen% (Gen.N1_ts_comp_ts_tt_all c c3 fn) | a 3 3 | b 3 3)
       = rows69 (T4.stoTS c (T4.comp (T4.ofTS c (rm mS1 mT1 a)) (T4.ofTT (rm mT1 mT1 b)))) := by
-  t4_eq hc
+  rw [stoTS_comp_TS_TT hc h2]; t4_eq hc
 theorem N1_ts_dyad (hc : c * c = 2) (h2 : (2:K) ≠ 0) (s : Fin 6 → K) (x : Fin 9 → K) :
     pad1_69 (gen% (Gen.N1_ts_dyad_all c c3 fn) | s 3 | x 3)
       = rows69 (T4.stoTS c (T2.dyad (T2.ofSt c (rv mS1 s)) (T2.ofTens (rv mT1 x)))) := by
-  t4_eq hc
-theorem N1_ts_change_basis (hc : c * c = 2) (h2 : (2:K) ≠ 0) (a : Fin 6 → Fin 9 → K) (r : Fin 3 → Fin 3 → K) :
-    pad1_69 (gen% (Gen.N1_ts_change_basis_all c c3 fn) | a 3 3 | r 3 3)
-      = rows69 (T4.stoTS c (T4.ofTS c (rm mS1 mT1 a))) := by
-  t4_eq hc
+  rw [stoTS_dyad hc h2]; t4_eq hc
 /-- `convertToT2toST2(T)`: symmetric part of the result, `(T_ijkl + T_jikl)/2` -/
 theorem N1_ts_convert_from_t2tot2 (hc : c * c = 2) (h2 : (2:K) ≠ 0) (a : Fin 9 → Fin 9 → K) :
     pad1_69 (gen% (Gen.N1_ts_convert_from_t2tot2_all c c3 fn) | a 3 3)
@@ -229,23 +206,23 @@ theorem N1_ts_dBdF (hc : c * c = 2) (h2 : (2:K) ≠ 0) (f : Fin 9 → K) :
 theorem N1_s2t_apply (hc : c * c = 2) (h2 : (2:K) ≠ 0) (a : Fin 9 → Fin 6 → K) (s : Fin 6 → K) :
     pad1_9 (gen% (Gen.N1_s2t_apply_all c c3 fn) | a 3 3 | s 3)
       = T2.tens (T4.app (T4.ofS2T c (rm mT1 mS1 a)) (T2.ofSt c (rv mS1 s))) := by
-  t4_eq hc
+  rw [tens_app_S2T hc h2]; t4_eq hc
 theorem N1_s2t_applyL (hc : c * c = 2) (h2 : (2:K) ≠ 0) (x : Fin 9 → K) (a : Fin 9 → Fin 6 → K) :
     pad1_6 (gen% (Gen.N1_s2t_applyL_all c c3 fn) | x 3 | a 3 3)
       = T2.st c (T4.appL (T2.ofTens (rv mT1 x)) (T4.ofS2T c (rm mT1 mS1 a))) := by
-  t4_eq hc
+  rw [st_appL_S2T hc h2]; t4_eq hc
 theorem N1_s2t_comp_tt_s2t (hc : c * c = 2) (h2 : (2:K) ≠ 0) (a : Fin 9 → Fin 9 → K) (b : Fin 9 → Fin 6 → K) :
     pad1_96 (gen% (Gen.N1_s2t_comp_tt_s2t_all c c3 fn) | a 3 3 | b 3 3)
       = rows96 (T4.stoS2T c (T4.comp (T4.ofTT (rm mT1 mT1 a)) (T4.ofS2T c (rm mT1 mS1 b)))) := by
-  t4_eq hc
+  rw [stoS2T_comp_TT_S2T hc h2]; t4_eq hc
 theorem N1_s2t_comp_s2t_st (hc : c * c = 2) (h2 : (2:K) ≠ 0) (a : Fin 9 → Fin 6 → K) (b : Fin 6 → Fin 6 → K) :
     pad1_96 (gen% (Gen.N1_s2t_comp_s2t_st_all c c3 fn) | a 3 3 | b 3 3)
       = rows96 (T4.stoS2T c (T4.comp (T4.ofS2T c (rm mT1 mS1 a)) (T4.ofST c (rm mS1 mS1 b)))) := by
-  t4_eq hc
+  rw [stoS2T_comp_S2T_ST hc h2]; t4_eq hc
 theorem N1_s2t_dyad (hc : c * c = 2) (h2 : (2:K) ≠ 0) (x : Fin 9 → K) (s : Fin 6 → K) :
     pad1_96 (gen% (Gen.N1_s2t_dyad_all c c3 fn) | x 3 | s 3)
       = rows96 (T4.stoS2T c (T2.dyad (T2.ofTens (rv mT1 x)) (T2.ofSt c (rv mS1 s)))) := by
-  t4_eq hc
+  rw [stoS2T_dyad hc h2]; t4_eq hc
 /-- `st2tot2::tpld(b)`: `∂(a·b)/∂a` for symmetric `a`, `(δ_ik b_lj + δ_il b_kj)/2` -/
 theorem N1_s2t_tpld (hc : c * c = 2) (h2 : (2:K) ≠ 0) (s : Fin 6 → K) :
     pad1_96 (gen% (Gen.N1_s2t_tpld_all c c3 fn) | s 3)
